@@ -15,7 +15,7 @@ THEOREMS = ["illFormed_undeclared_rejected", "illFormed_arity_rejected", "illFor
             "illFormed_include_rejected", "illFormed_dsLattice_rejected", "illFormed_twoDs_rejected", "illFormed_unknownAttr_rejected",
             "illFormed_parOnlyAttr_rejected", "self_referential_macro_rejected", "direct_recursive_macro_rejected", "mutual_recursive_macro_rejected",
             "expandItem_succeeds_within_budget", "wellFormedCore_accepted", "accepted_is_wellFormed", "desugar_error_rejected", "self_referential_head_macro_rejected", "panic_only_in_known_classes", "leftover_panics_unreachable", "dependency_cycle_is_one_class", "aggBound_panic_only_in_class", "sig_panic_only_in_class", "stratError_is_illFormedStrat",
-            "hidden_rebind_accepted", "aggBound_shadow_accepted", "emptyDisj_erases_rule"]
+            "hidden_rebind_accepted", "aggBound_shadow_accepted", "emptyDisj_erases_rule", "emptyMacro_accepted", "latticeTrailingComma_accepted", "emptyLattice_rejected"]
 TRUSTED = ["Lean 4.33.0 kernel", "axioms: propext, Classical.choice, Quot.sound only (audited per theorem)",
            "statement: Props/C15.lean over the model Model/Check.lean (pipeline order of ascent_syntax.rs / ascent_hir.rs / ascent_mir.rs / the three "
            "reachable panics of ascent_codegen.rs); the model is tied to the real pipeline outcome by outcome on every generated program",
@@ -46,20 +46,17 @@ def known_class(m, real, model):
     cls, var = m["class"], m["variant"]
     if model is not None and model != real and real != "hang": return None
     if cls == "rebind" and var.startswith("clausecond") and not m["faithful"] and real == "ok": return "FM11"    # real rustc only
-    if cls == "rebind" and var.endswith("-paren") and real == "ok": return "FM1"
     if cls == "rebind" and var == "agg-bound-arg" and real == "ok": return "FM2"
     if cls == "malformed-condition" and real == "ok": return "FM3"
     if var == "use+empty-disjunction" and real == "ok": return "FM4"
     if cls == "agg-bound-arg-missing" and real == "panic panicAggBound": return "FM5"
     if cls == "signature-mismatch" and real in ("panic panicSigName", "panic panicSigGenerics"): return "FM6"
-    if cls == "wellformed-variant" and var.startswith("empty-") and real == "panic panicFlatten": return "FM7"
     if cls == "recursive-macro" and var.startswith("direct-branching") and real == "hang": return "FM8"
-    if var == "lattice-trailing-comma" and real == "err emptyLattice": return "FM9"
     if var in ("disjunction-nesting-100", "macro-chain-100") and real == "err recMacro": return "FM10"
     return None
 
 
-PANIC_SITE_FINDING = {"panic panicAggBound": "FM5", "panic panicSigName": "FM6", "panic panicSigGenerics": "FM6", "panic panicFlatten": "FM7"}
+PANIC_SITE_FINDING = {"panic panicAggBound": "FM5", "panic panicSigName": "FM6", "panic panicSigGenerics": "FM6"}
 # classes whose single violation is answered by a proper error: used for double mutants (pipeline ORDER of the model)
 CLEAN = {"undeclared", "arity", "stratification", "ds-on-lattice", "two-ds", "unknown-attribute", "parallel-only-attribute", "attribute-shape",
          "attribute-on-rule", "macro-use"}
